@@ -357,6 +357,19 @@ VARIANTS = [
     brk('B-version-applied-without-rebuild', ['C17'], 'R-version-pairing', (S, "            callback = self.__conf.onCodeVersionChanged\n            self.__onSetCodeVersion(ver)\n", "            callback = self.__conf.onCodeVersionChanged\n")),
     brk('B-append-publishes-old-offset', ['C08'], 'R-write-then-publish', (J, "        self.__currentOffset += len(cmdData)\n        self.__setLastRecordOffset(self.__currentOffset)", "        self.__setLastRecordOffset(self.__currentOffset)\n        self.__currentOffset += len(cmdData)")),
     brk('B-append-advances-by-payload-only', ['C08'], 'R-write-then-publish', (J, "        self.__currentOffset += len(cmdData)\n", "        self.__currentOffset += len(cmdData) - 4\n")),
+    brk('B-conflict-backoff-reaches-log-start', ['C05'], 'R-hint-floor', (S, "                if prevEntries[0][2] != prevLogTerm:\n", "                if prevEntries[0][2] != prevLogTerm:\n                    conflictTerm = prevEntries[0][2]\n                    firstIdx = self.__raftLog[0][1]\n                    while prevLogIdx > firstIdx and self.__raftLog[prevLogIdx - 1 - firstIdx][2] == conflictTerm:\n                        prevLogIdx -= 1\n")),
+    keep('P-conflict-backoff-bounded', (S, "                if prevEntries[0][2] != prevLogTerm:\n", "                if prevEntries[0][2] != prevLogTerm:\n                    conflictTerm = prevEntries[0][2]\n                    firstIdx = self.__raftLog[0][1]\n                    while prevLogIdx - 1 > firstIdx and self.__raftLog[prevLogIdx - 1 - firstIdx][2] == conflictTerm:\n                        prevLogIdx -= 1\n")),
+    brk('B-connect-event-refreshes-response-time', ['C20'], 'R-response-time-writes', (S, "    def __onNodeConnected(self, node):\n", "    def __onNodeConnected(self, node):\n        if self._isLeader():\n            self.__lastResponseTime[node] = monotonicTime()\n")),
+    brk('B-fallback-default-now', ['C20'], 'R-fallback-every-tick', (S, "if self.__lastResponseTime[node] > deadline:", "if self.__lastResponseTime.get(node, monotonicTime()) > deadline:")),
+    keep('P-fallback-get-default-zero', (S, "if self.__lastResponseTime[node] > deadline:", "if self.__lastResponseTime.get(node, 0) > deadline:")),
+    brk('B-connected-without-so-error', ['C14'], 'R-established-checked', (T, "            if self.__socket.getsockopt(socket.SOL_SOCKET, socket.SO_ERROR):\n                self.disconnect()\n                return\n", "")),
+    brk('B-disc-by-cached-node', ['C14'], 'R-disc-attribution', (TR, "        for node in self._connections:\n            if self._connections[node] is conn:\n                return node\n        return None", "        return getattr(conn, 'node', None)")),
+    brk('B-membership-scan-voters-only', ['C10', 'C18'], 'R-apply-on-append', (S, "                if self.__conf.dynamicMembershipChange:\n                    for entry in entriesToAdd:", "                if self.__conf.dynamicMembershipChange and self.__selfNode is not None:\n                    for entry in entriesToAdd:")),
+    brk('B-late-acquire-mixed-clocks', ['C16'], 'R-late-acquire', (B, "            if acquireRes:\n                acquireTime = time.time()\n", "            if acquireRes:\n                acquireTime = monotonicTime()\n")),
+    brk('B-setdefault-none-absent', ['C15'], 'R-none-is-a-value', (B, "        return self.__data.setdefault(key, default)", "        value = self.__data.get(key)\n        if value is None:\n            value = self.__data[key] = default\n        return value")),
+    keep('P-setdefault-explicit-in', (B, "        return self.__data.setdefault(key, default)", "        if key not in self.__data:\n            self.__data[key] = default\n        return self.__data[key]")),
+    brk('B-sweep-rebinds-local', ['C02'], 'R-cb-linear', (S, "        for id in sorted(self.__commandsWaitingReply):\n            self.__commandsWaitingReply[id](None, FAIL_REASON.LEADER_CHANGED)\n        self.__commandsWaitingReply = {}", "        waiting = self.__commandsWaitingReply\n        for id in sorted(waiting):\n            waiting[id](None, FAIL_REASON.LEADER_CHANGED)\n        waiting = {}")),
+    keep('P-sweep-alias-clear', (S, "        for id in sorted(self.__commandsWaitingReply):\n            self.__commandsWaitingReply[id](None, FAIL_REASON.LEADER_CHANGED)\n        self.__commandsWaitingReply = {}", "        waiting = self.__commandsWaitingReply\n        for id in sorted(waiting):\n            waiting[id](None, FAIL_REASON.LEADER_CHANGED)\n        waiting.clear()")),
     keep('P-rename-transport-privates', (TR, '_shouldConnect', '_mustDial'), (TR, '_onIncomingMessageReceived', '_onHandshake'), (TR, '_connectIfNecessarySingle', '_dialOne'),
          (TR, '_onDisconnected', '_onConnLost')),
     keep('P-checkserializing-hoist-reset', (SER, "                serializeState = SERIALIZER_STATE.SUCCESS if self.__pid == -1 else SERIALIZER_STATE.FAILED\n                self.__pid = 0\n", "                finished = self.__pid\n                self.__pid = 0\n                serializeState = SERIALIZER_STATE.SUCCESS if finished == -1 else SERIALIZER_STATE.FAILED\n")),
